@@ -15,7 +15,7 @@ ID = "C11"
 LEVEL = "exploration"
 SHARDS = {"quick": 8, "thorough": 16}
 RULE = ("a raw 0xC0 body (assembled by the model's vendor-layout encoder plus raw byte overrides) is reported to a fresh "
-        "AirConditioner, either through refresh() against the model device or through Response.construct + _update_state, or twice to the same client with local attribute changes in between, or after a different report to the same client (optionally with 1..3 late duplicates of that earlier report waiting unread on the idle connection), or through the refresh that toggle_display() performs against a unit that does not act on the display command, or through a multi-query refresh (energy polling on) in which an unsolicited notification overtakes the state reply or the optional energy query goes unanswered or cannot be delivered (the unit hung up after the state answer and a new connection hangs); the "
+        "AirConditioner, either through refresh() against the model device or through Response.construct + _update_state, or twice to the same client with local attribute changes in between, or after a different report to the same client (optionally with 1..3 late duplicates of that earlier report waiting unread on the idle connection), or through a refresh whose slow connect lets an apply() of the same client overtake it, or through the refresh that toggle_display() performs against a unit that does not act on the display command, or through a multi-query refresh (energy polling on) in which an unsolicited notification overtakes the state reply or the optional energy query goes unanswered or cannot be delivered (the unit hung up after the state answer and a new connection hangs); the "
         "public attributes must equal the vendor-layout reading of the body: power, mode (members 1..6), setpoint (alternate code "
         "c!=0 => c+12 else primary+16, + half bit), fan (member or raw 0..127), swing (canonical nibbles), turbo, aux mode, eco, "
         "purifier, sleep, Fahrenheit, follow-me, filter, display ((b14>>4)&7 != 7), target humidity iff length>=20 else None, "
@@ -114,7 +114,17 @@ def check_case(case: dict):
                         conn.send_stream(dev.wrap(conn, current["frame"]), delay=0.01)
                     await asyncio.sleep(case.get("stale_wait", 0.5))
                 current["frame"] = frame
-            if via == "toggle":
+            if via == "overtaken":
+                # the poll is asked for first but its TCP connect is slow (0.5 s); meanwhile the user applies a setting on the same
+                # object, which connects and completes at once.  The poll's answer is the latest report the client receives.
+                import asyncio
+                dev.connect_script = ["slow:0.5"]
+                t_poll = asyncio.ensure_future(ac.refresh())
+                await asyncio.sleep(0.1)
+                ac.target_temperature = 19.0 if ac.target_temperature != 19.0 else 23.0
+                await ac.apply()
+                await t_poll
+            elif via == "toggle":
                 # the refresh happens inside toggle_display(): an earlier refresh, then the display command - which this unit does
                 # not act on (switched off / no display control / delayed): what it reports afterwards is what counts
                 if not case.get("before"):
@@ -252,6 +262,9 @@ def run(ctx) -> None:
                     c3["stale"] = 1 + (seq // 2) % 3
                     c3["stale_wait"] = [0.5, 3.0, 120.0][(seq // 6) % 3]
                 ctx.check(c3, lambda c: _run_one(ctx, c))
+                if seq % 3 == 0:
+                    c6 = dict(case, via="overtaken", version=2, cls=case["cls"] + " poll overtaken by an apply")
+                    ctx.check(c6, lambda c: _run_one(ctx, c))
                 c5 = dict(case, via="toggle", version=2 if seq % 2 else 3, cls=case["cls"] + " via toggle_display")
                 if seq % 4 == 0:
                     c5["before"] = full.hex()
